@@ -425,12 +425,12 @@ def part_histories(ctx, root):
     # process from the first target compiled (e.g. the re-entrancy lock location) shows as a difference
     evs = ["prague", "shanghai", "cancun", "london"]
     efmts = ["bytecode", "bytecode_runtime", "layout", "abi"]
-    eprogs = progs if ctx.tier == "thorough" else ["locked", "counter", "token", "diamond", "exports", "structs"]
+    eprogs = progs if ctx.tier == "thorough" else ["locked", "token", "diamond", "structs"]
     sessions.append(("s5", 4, [job(p, dict(c, evm=e), efmts) for p in eprogs for c in cfgs for e in evs]))
     sessions.append(("s6", 5, [job(p, dict(c, evm=e), efmts) for p in reversed(eprogs) for c in cfgs for e in reversed(evs)]))
     # S7: every ordered pair of output formats (what is computed first must not influence what comes second)
     pf = ["bytecode", "bytecode_runtime", "ir", "asm", "metadata", "layout", "abi"]
-    pprogs = progs if ctx.tier == "thorough" else ["token", "iface_vyi", "diamond"]
+    pprogs = progs if ctx.tier == "thorough" else ["token", "iface_vyi"]
     sessions.append(("s7", 6, [job(p, c, [f, g]) for p in pprogs for c in cfgs for f in pf for g in pf if f != g]))
     if ctx.tier == "thorough":
         for k in range(4):
@@ -485,7 +485,7 @@ def part_histories(ctx, root):
 def part_cli(ctx, root):
     """`vyper -f <subset/order>` and `vyper-json` in fresh processes: same bytes for the same format whatever else is requested."""
     rnd = ctx.rng("cli")
-    progs = ["counter", "token", "diamond", "exports", "shadowed_paths", "iface_json"] if ctx.tier == "quick" else list(CORPUS)
+    progs = ["token", "diamond", "shadowed_paths", "iface_json"] if ctx.tier == "quick" else list(CORPUS)
     orders = ["bytecode,abi,layout", "layout,abi,bytecode", "abi", "bytecode", "bytecode_runtime,bytecode", "method_identifiers,layout"]
     env0 = dict(os.environ, PYTHONPATH=str(REPO), PYTHONDONTWRITEBYTECODE="1")
     jobs = []
